@@ -1,5 +1,239 @@
 import Driver.Proto
+import TonicModel.Basic.ConnScript
+import TonicModel.Model.Reconnect
+import TonicModel.Spec.Reconnect
 namespace DriverC14
-/-- stub: property not yet claimed -/
-def handle (_case _obs : List String) : String × String := ("unclaimed", "fail:unclaimed")
+open Proto ConnScript Reconnect
+
+/-! token helpers -/
+
+def stripPre (pre s : String) : Option String :=
+  let p := pre.toList
+  let l := s.toList
+  if p.isPrefixOf l then some (String.ofList (l.drop p.length)) else none
+
+def natAfter (pre s : String) : Option Nat := (stripPre pre s).bind (·.toNat?)
+
+def mode? (s : String) : Option Bool :=
+  if s = "L" then some true else if s = "E" then some false else none
+
+def chars (s : String) : List Char := s.toList.filter (· ≠ '-')
+
+def ansOfChars : Nat → List Char → Option (List Ans)
+  | _, [] => some []
+  | i, c :: cs =>
+    match (if c = 'o' then some Ans.ok else if c = 'e' then some (Ans.err i)
+           else if c = 'p' then some Ans.pending else none), ansOfChars (i + 1) cs with
+    | some a, some r => some (a :: r)
+    | _, _ => none
+
+def outcome? (c : Char) : Option Outcome :=
+  if c = 'F' ∨ c = 'f' then some .refuse
+  else if c = 'S' ∨ c = 's' then some .accept
+  else if c = 'X' ∨ c = 'x' then some .deadPeer
+  else if c = 'T' ∨ c = 't' then some .timeout
+  else none
+
+def op? (c : Char) : Option Op :=
+  if c = 'c' then some .call else if c = 'd' ∨ c = 'g' then some .die else none
+
+def b01 (b : Bool) : String := if b then "1" else "0"
+
+def stTok (r : R) : String :=
+  let s := match r.st with
+    | .idle => "0"
+    | .connecting => "1"
+    | .spent => "1"
+    | .connected _ => "2"
+  "s" ++ s ++ "e" ++ b01 r.error.isSome ++ "h" ++ b01 r.hasBeen
+
+/-! unit: arbitrary `poll_ready` / `call` sequences -/
+
+def uop? (c : Char) : Option UOp :=
+  if c = 'r' then some .poll else if c = 'c' then some .call else none
+
+def uoutTok : UOut → String
+  | .polled .ready r => s!"r:ready:{stTok r}"
+  | .polled .pending r => s!"r:pending:{stTok r}"
+  | .polled (.failed e) r => s!"r:fail{e}:{stTok r}"
+  | .polled .panic _ => "r:panic"
+  | .called (.sent c) r => s!"c:sent{c}:{stTok r}"
+  | .called (.error e) r => s!"c:err{e}:{stTok r}"
+  | .called .panic _ => "c:panic"
+
+def runUnit (r : R) (env : List Ans) (ops : List UOp) : List String :=
+  match runOps r env ops with
+  | (os, r', env') => os.map uoutTok ++ [s!"made={r'.made}", s!"left={env'.length}"]
+
+def parseSt (s : String) : Option (Nat × Bool × Bool) :=
+  match s.toList with
+  | ['s', a, 'e', b, 'h', c] =>
+    let st := a.toNat - 48
+    if st ≤ 2 ∧ (b = '0' ∨ b = '1') ∧ (c = '0' ∨ c = '1') then some (st, b = '1', c = '1') else none
+  | _ => none
+
+def parseUnitTok (t : String) : Option Spec.Reconnect.UnitObs :=
+  match t.splitOn ":" with
+  | ["r", "panic"] => some ⟨.pollPanic, 0, false, false⟩
+  | ["c", "panic"] => some ⟨.callPanic, 0, false, false⟩
+  | [k, what, st] =>
+    match parseSt st with
+    | none => none
+    | some (s, e, h) =>
+      let ev : Option Spec.Reconnect.UnitEv :=
+        if k = "r" then
+          if what = "ready" then some .ready
+          else if what = "pending" then some .pending
+          else (natAfter "fail" what).map .fail
+        else if k = "c" then
+          if what = "pending" then some .cpending
+          else match natAfter "sent" what with
+            | some c => some (.sent c)
+            | none => (natAfter "err" what).map .cerr
+        else none
+      ev.map fun ev => ⟨ev, s, e, h⟩
+  | _ => none
+
+def isMeta (t : String) : Bool := (stripPre "made=" t).isSome || (stripPre "left=" t).isSome
+
+def parseAll {α} (f : String → Option α) : List String → Option (List α)
+  | [] => some []
+  | t :: ts =>
+    match f t, parseAll f ts with
+    | some a, some r => some (a :: r)
+    | _, _ => none
+
+def leftOf (obs : List String) : Nat :=
+  ((obs.filterMap (natAfter "left=")).head?).getD 0
+
+/-! sess: driven like `Channel` drives it -/
+
+def resTok : Res → String
+  | .resp c => s!"resp{c}"
+  | .err e => s!"err{e}"
+  | .closed e => s!"closed{e}"
+  | .hang => "hang"
+  | .panic => "panic"
+
+def parseRes (t : String) : Option Res :=
+  if t = "hang" then some .hang
+  else if t = "panic" then some .panic
+  else match natAfter "resp" t with
+    | some c => some (.resp c)
+    | none => match natAfter "err" t with
+      | some e => some (.err e)
+      | none => (natAfter "closed" t).map .closed
+
+def runSess (isLazy : Bool) (env : List Ans) (n : Nat) : List String :=
+  match channelSession isLazy env n with
+  | (b, rs, r, env') =>
+    (match b with
+     | .none => []
+     | .ok => [s!"build:ok:{stTok (connectEager env).1}"]
+     | .fail e => [s!"build:fail{e}"]
+     | .hang => ["build:hang"]
+     | .panic => ["build:panic"]) ++ rs.map resTok ++ [s!"made={r.made}", s!"left={env'.length}"]
+
+/-! e2e -/
+
+def fTok : Option Nat → String
+  | some k => s!"f{k}"
+  | none => "f?"
+
+def buildTok (t : Trace) : String :=
+  match t.build with
+  | .ok => s!"build:ok:a{t.buildAttempts}"
+  | .error code att => s!"build:err{code}:{fTok att}:a{t.buildAttempts}"
+  | .hang => s!"build:hang:a{t.buildAttempts}"
+
+def evTok : Ev → String
+  | .die => "d"
+  | .call (.resp c) a => s!"c:resp{c}:a{a}"
+  | .call (.error code att) a => s!"c:err{code}:{fTok att}:a{a}"
+  | .call .hang a => s!"c:hang:a{a}"
+  | .call .panic a => s!"c:panic:a{a}"
+  | .call .garbled a => s!"c:garbled:a{a}"
+
+def parseF (s : String) : Option (Option Nat) :=
+  if s = "f?" then some none else (natAfter "f" s).map some
+
+def parseBuild (t : String) : Option (BuildRes × Nat) :=
+  match t.splitOn ":" with
+  | ["build", "ok", a] => (natAfter "a" a).map fun a => (.ok, a)
+  | ["build", "hang", a] => (natAfter "a" a).map fun a => (.hang, a)
+  | ["build", e, f, a] =>
+    match natAfter "err" e, parseF f, natAfter "a" a with
+    | some code, some att, some a => some (.error code att, a)
+    | _, _, _ => none
+  | _ => none
+
+def parseEv (t : String) : Option Ev :=
+  if t = "d" then some .die
+  else match t.splitOn ":" with
+    | ["c", what, a] =>
+      match natAfter "a" a with
+      | none => none
+      | some a =>
+        if what = "hang" then some (.call .hang a)
+        else if what = "panic" then some (.call .panic a)
+        else if what = "garbled" then some (.call .garbled a)
+        else (natAfter "resp" what).map fun c => .call (.resp c) a
+    | ["c", e, f, a] =>
+      match natAfter "err" e, parseF f, natAfter "a" a with
+      | some code, some att, some a => some (.call (.error code att) a)
+      | _, _, _ => none
+    | _ => none
+
+def parseTrace : List String → Option Trace
+  | [] => none
+  | b :: evs =>
+    match parseBuild b, parseAll parseEv evs with
+    | some (br, a), some evs => some { build := br, buildAttempts := a, evs := evs }
+    | _, _ => none
+
+def handle (case obs : List String) : String × String :=
+  match case with
+  | ["unit", m, envS, opsS] =>
+    match mode? m, ansOfChars 0 (chars envS), parseAll (fun s => (s.toList.head?).bind uop?) ((chars opsS).map (String.singleton ·)) with
+    | some isLazy, some env, some ops =>
+      let model := String.intercalate " " (runUnit (R.init isLazy) env ops)
+      let v := match parseAll parseUnitTok (obs.filter (!isMeta ·)) with
+        | some os => verdict (Spec.Reconnect.unitClauses env os)
+        | none => "fail:unparsable-observation"
+      (model, v)
+    | _, _, _ => bad
+  | ["sess", m, envS, nS] =>
+    match mode? m, ansOfChars 0 (chars envS), nat? nS with
+    | some isLazy, some env, some n =>
+      let model := String.intercalate " " (runSess isLazy env n)
+      let body := obs.filter (!isMeta ·)
+      let (build, rest) : Option SessBuild × List String := match body with
+        | b :: rest =>
+          if (stripPre "build:" b).isSome then
+            (if (stripPre "build:ok:" b).isSome then some .ok
+             else if b = "build:hang" then some .hang
+             else if b = "build:panic" then some .panic
+             else (natAfter "build:fail" b).map .fail, rest)
+          else (some .none, body)
+        | [] => (some .none, [])
+      let v := match build, parseAll parseRes rest with
+        | some b, some rs => verdict (Spec.Reconnect.sessBuildClauses isLazy env b (leftOf obs) ++
+            Spec.Reconnect.sessClauses env rs (leftOf obs))
+        | _, _ => "fail:unparsable-observation"
+      (model, v)
+    | _, _, _ => bad
+  | [kind, m, outsS, opsS] =>
+    if kind ≠ "e2e" ∧ kind ≠ "e2n" then bad else
+    match mode? m, parseAll (fun s => (s.toList.head?).bind outcome?) ((chars outsS).map (String.singleton ·)),
+          parseAll (fun s => (s.toList.head?).bind op?) ((chars opsS).map (String.singleton ·)) with
+    | some isLazy, some outs, some ops =>
+      let t := E2E.run true isLazy outs ops
+      let model := String.intercalate " " (buildTok t :: t.evs.map evTok)
+      let v := match parseTrace obs with
+        | some ot => verdict (Spec.Reconnect.clauses isLazy outs ops ot)
+        | none => "fail:unparsable-observation"
+      (model, v)
+    | _, _, _ => bad
+  | _ => bad
+
 end DriverC14
